@@ -85,6 +85,21 @@ def stream_ops(P, fn, op):
     return fl[0], ss
 
 
+def loop_range(fn, P, lp):
+    """The container a loop visits completely: range-for range, or R for `for (i = 0; i < R.size(); ++i)` (engine: naming()["@idx"])."""
+    if lp is None:
+        return None
+    if lp.get("k") == "foreach":
+        return lp.get("range")
+    if lp.get("k") == "for" and isinstance(lp.get("init"), dict):
+        return (naming(fn, P).get("@idx") or {}).get(lp["init"].get("n"))
+    return None
+
+
+def loop_complete(lp):
+    return not has_break(lp.get("b")) and not [st for st in stmts(lp.get("b")) if st.get("k") in ("continue", "ret")]
+
+
 def check(ctx):
     P = ctx.program(UNITS)
     load, dump = ctx.used(P.fn(LOAD)), ctx.used(P.fn(DUMP))
@@ -116,7 +131,8 @@ def symmetry(ctx, P, load, dump):
             droles.append({"tx": "tx", "m_time": "time", "nFeeDelta": "feedelta"}.get(flds[0] if len(flds) == 1 else None, "?" + ",".join(flds)))
     subst = naming(load, P)
     atmp = sites(load, call_to(ATMP), P)
-    prio = [s for s in sites(load, call_to(PRIO), P) if s.loops and s.loops[-1].get("k") == "while"]
+    rloops = [s.loops[-1] for s in lops if s.loops]
+    prio = [s for s in sites(load, call_to(PRIO), P) if s.loops and rloops and s.loops[-1] is rloops[0]]
     role_of = {}
     for s in atmp:
         a = call_args(s.expr)
@@ -193,20 +209,22 @@ def symmetry(ctx, P, load, dump):
     cv = F.expand(cnt_d.expr[3], dsub)
     cv = F.expand(cv, {st["n"]: st["i"] for st in stmts(dump.body) if st.get("k") == "decl" and st.get("n") == (cnt_d.expr[3][1] if cnt_d.expr[3][0] == "local" else None)
                        and is_expr(st.get("i")) and len(local_values(dump, st["n"])) == 1})
-    ok = loop_d.get("k") == "foreach" and match(["mcall", "std::vector::size", loop_d.get("range")], cv) and not has_break(loop_d.get("b")) and \
-        not [st for st in stmts(loop_d.get("b")) if st.get("k") in ("continue", "ret")]
+    rng_d = loop_range(dump, P, loop_d)
+    ok = is_expr(rng_d) and match(["mcall", "std::vector::size", rng_d], cv) and loop_complete(loop_d)
     ctx.ob("symmetry/count-written", "SYMMETRY", "the transaction count written is the size of the vector the writer then iterates completely (one record per element)", ok,
-           cnt_d.where, {"count": show(cv), "loop": show(loop_d.get("range")) if loop_d.get("k") == "foreach" else loop_d.get("k")})
+           cnt_d.where, {"count": show(cv), "loop": show(rng_d) if is_expr(rng_d) else loop_d.get("k")})
     cnt_l = [s for s in lops if not s.loops and s.line < min(x.line for x in lops if x.loops)][-1]
     loop_l = [s for s in lops if s.loops][0].loops[-1]
     ok = False
-    if loop_l.get("k") == "while" and match(["b", "<", ["local", ANY], cnt_l.expr[3]], loop_l.get("c")):
+    if loop_l.get("k") in ("while", "for") and match(["b", "<", ["local", ANY], cnt_l.expr[3]], loop_l.get("c")):
         iv = loop_l["c"][2][1]
         vals = local_values(load, iv)
-        incs = sites(load, lambda e: match(["u", lambda o: o in ("++", "post++"), ["local", iv]], e), P)
-        first_read = min(s.line for s in lops if s.loops)
+        incs = sites(load, lambda e: match(["u", lambda o: o in ("++", "post++"), ["local", iv]], e) or match(["b", "+=", ["local", iv], ["int", 1]], e), P)
+        in_header = loop_l.get("k") == "for" and len(incs) == 1 and incs[0].expr is loop_l.get("inc")
+        # one unconditional increment per iteration: in the for-header, or in the body with no condition and no continue/break that could skip it
         ok = len(vals) == 2 and any(match(["int", 0], v) for _, v in vals) and len(incs) == 1 and incs[0].loops and incs[0].loops[-1] is loop_l and \
-            not [g for g in incs[0].guards if g.kind in ("if", "sc") and g.line >= loop_l.get("l")] and not [st for st in stmts(loop_l.get("b")) if st.get("k") in ("continue", "break")]
+            not [g for g in incs[0].guards if g.kind in ("if", "sc") and g.line >= loop_l.get("l")] and not has_break(loop_l.get("b")) and \
+            (in_header or not [st for st in stmts(loop_l.get("b")) if st.get("k") == "continue"])
         ok = ok and len(local_values(load, cnt_l.expr[3][1])) == 0
     ctx.ob("symmetry/count-read", "SYMMETRY", "the reader loops `while (tried < count)` with tried starting at 0 and incremented exactly once per iteration, unconditionally, and "
            "count is only ever the value read from the file", ok, cnt_l.where)
@@ -316,7 +334,7 @@ def dump_sources(ctx, P, dump):
             ctx.ob("DumpMempool/source/%s" % nm, "PROVENANCE", "the %s written to the file is a copy of the pool's %s taken under pool.cs" % (nm, want[ty].rsplit("::", 1)[-1]), bool(ok), s.where)
     lp = [s for s in dops if s.loops]
     if lp:
-        rng = lp[0].loops[-1].get("range")
+        rng = loop_range(dump, P, lp[0].loops[-1])
         vals = local_values(dump, rng[1]) if match(["local", ANY], rng) else []
         ok = bool(vals) and all(match(["ctor", "std::vector"], v) and len(v) == 2 or match(["mcall", "CTxMemPool::infoAll", ["param", "pool"]], v) for _, v in vals) and \
             any(match(["mcall", "CTxMemPool::infoAll"], v) for _, v in vals)
